@@ -5,7 +5,8 @@ built from the fragment (literals, *, ?, **/, trailing /, leading /, !, comments
 import os, subprocess
 from .. import core, treerun, treegen
 
-NAMES = [b'a', b'b', b'build', b'src', b'x.o', b'y.o', b'keep.o', b'main.c', b'.hidden', b'.gitignore2', b'top', b'doc', b'q', b'ab', b'target', b'z']
+NAMES = [b'a', b'b', b'build', b'src', b'x.o', b'y.o', b'keep.o', b'main.c', b'.hidden', b'.gitignore2', b'top', b'doc', b'q', b'ab', b'target', b'z',
+         b'Build', b'SRC', b'X.O', b'Makefile', b'makefile', b'MAIN.C', b'Doc']
 
 
 def gen_tree(rng, sc, base, depth, links=False):
@@ -29,6 +30,8 @@ def gen_tree(rng, sc, base, depth, links=False):
 
 def gen_pattern(rng, present=None):
     n = (rng.choice(present) if present and rng.random() < 0.75 else rng.choice(NAMES)).decode()
+    if rng.random() < 0.15:
+        n = n.swapcase()          # same letters, other case: git (and the property) are case-sensitive
     r = rng.random()
     if r < 0.15: core_ = n
     elif r < 0.3: core_ = '*' + n[-2:] if len(n) > 2 else '*'
